@@ -281,14 +281,11 @@ def snapshot_rule(res, f, ops):
         res.ob('SNAPSHOT', f.where(), 'snapshot loop emits INDEX_OP_ENTRYINSERTED', False, function=f.q, key=key + 'loop',
                message='GetDataCallback has no loop emitting INDEX_OP_ENTRYINSERTED entries: a newly subscribed client gets no index snapshot')
         return
-    init, cond, inc = target.role('init'), target.role('cond'), target.role('inc')
-    iv = None
-    if init is not None:
-        for x in init.walk():
-            if x['k'] == 'VarDecl' and x['ch'] and x['ch'][0].get('v') == 0:
-                iv = x['d']
-    asc = inc is not None and inc['k'] == 'UnaryOperator' and inc.get('op') in ('post++', 'pre++') and A.strip_casts(inc['ch'][0]).get('d') == iv
-    upper = cond is not None and cond['k'] == 'BinaryOperator' and cond.get('op') == '<' and A.strip_casts(cond['ch'][0]).get('d') == iv
+    cond, inc = target.role('cond'), target.role('inc')
+    cl = A.counting_loop(target)
+    iv = cl['var'] if cl and cl['start'] is not None and A.strip_casts(cl['start']).get('v') == 0 else None
+    asc = bool(cl) and cl['step'] == 1
+    upper = bool(cl) and cl['op'] == '<'
     res.ob('SNAPSHOT', f.where(target), 'snapshot loop runs i = 0, 1, … < index length', bool(iv is not None and asc and upper), function=f.q,
            how='for (i=0; %s; %s)' % (cond.text() if cond is not None else '?', inc.text() if inc is not None else '?'), key=key + 'ascending',
            message='the snapshot loop no longer enumerates positions 0..n-1 in ascending order: replaying the inserts builds a different order')
